@@ -54,6 +54,8 @@ func trailerStatus(body []byte) int {
 
 // shapes: 0 both sides idle (target never answers), 1 target unreachable (stream creation blocks), 2 mid-stream (one response, then silence),
 // 3 mid-stream with a stalled client: the target has answered, the client does not read, the response writer blocks (HTTP entries only)
+// 4 stalled upload: the request body has no declared length (chunked / HTTP/2: ContentLength -1) and the client stops sending
+// before the first byte; the target stays silent (HTTP entries only)
 func mkConn(shape int) *vfake.Conn {
 	c := vfake.NewConn()
 	switch shape {
@@ -126,6 +128,39 @@ func stalledOne(h http.Handler, req *http.Request, conn *vfake.Conn, d time.Dura
 	return o
 }
 
+// stalledBody is a request body whose next byte never comes (until the harness releases it after the measurement).
+type stalledBody struct{ release chan struct{} }
+
+func (b *stalledBody) Read([]byte) (int, error) { <-b.release; return 0, io.ErrUnexpectedEOF }
+func (b *stalledBody) Close() error             { return nil }
+
+// uploadOne: shape 4. The handler is called directly; code 4 stands for HTTP 504 (transcoded HTTP) or "ended" (gRPC-Web:
+// the trailer is not parsed here), -1 for "still running 2 s after the deadline".
+func uploadOne(h http.Handler, req *http.Request, conn *vfake.Conn, d time.Duration, want504 bool) outcome {
+	o := outcome{conn: conn, code: -1}
+	body := &stalledBody{release: make(chan struct{})}
+	req.Body, req.ContentLength = body, -1
+	rec := httptest.NewRecorder()
+	done := make(chan struct{})
+	o.start = time.Now()
+	go func() {
+		defer close(done)
+		h.ServeHTTP(rec, req)
+	}()
+	select {
+	case <-done:
+		o.code = 4
+		if want504 && rec.Code != 504 {
+			o.code = 1000 + rec.Code
+		}
+	case <-time.After(d + 2*time.Second):
+	}
+	o.elapsed = time.Since(o.start)
+	close(body.release)
+	<-done
+	return o
+}
+
 // the harness's own patience: a call that the bridge never ends is given up after 3 s (and reported as outliving its deadline)
 var boundedClient = &http.Client{Timeout: 3 * time.Second}
 
@@ -141,6 +176,11 @@ func enforceOne(entry, shape int, d time.Duration) outcome {
 			req := httptest.NewRequest("POST", "/x", strings.NewReader(`{"message":"hi"}`))
 			req.Header.Set("Grpc-Timeout", hdr)
 			return stalledOne(b, req, conn, d, false)
+		}
+		if shape == 4 {
+			req := httptest.NewRequest("POST", "/x", nil)
+			req.Header.Set("Grpc-Timeout", hdr)
+			return uploadOne(b, req, conn, d, true)
 		}
 		srv := httptest.NewServer(b)
 		defer srv.Close()
@@ -195,6 +235,12 @@ func enforceOne(entry, shape int, d time.Duration) outcome {
 			req.Header.Set("Content-Type", "application/grpc-web+proto")
 			req.Header.Set("Grpc-Timeout", hdr)
 			return stalledOne(b, req, conn, d, true)
+		}
+		if shape == 4 {
+			req := httptest.NewRequest("POST", "/x", nil)
+			req.Header.Set("Content-Type", "application/grpc-web+proto")
+			req.Header.Set("Grpc-Timeout", hdr)
+			return uploadOne(b, req, conn, d, false)
 		}
 		srv := httptest.NewServer(b)
 		defer srv.Close()
@@ -269,12 +315,12 @@ func enforcePart(w *vc.Writer, r *vc.Rand) {
 	reps := vc.Scale(1, 8)
 	for rep := 0; rep < reps; rep++ {
 		for entry := 0; entry < 5; entry++ {
-			for shape := 0; shape < 4; shape++ {
-				if shape == 3 && entry != 0 && entry != 2 {
+			for shape := 0; shape < 5; shape++ {
+				if shape >= 3 && entry != 0 && entry != 2 {
 					continue // the stalled client is an http.ResponseWriter that blocks: the two plain-HTTP entries
 				}
 				jobs = append(jobs, job{entry, shape, 60 + r.Intn(120)})
-				if rep == 0 && shape != 3 {
+				if rep == 0 && shape < 3 {
 					// a timeout of zero is a timeout: the call is over at once, with DeadlineExceeded
 					jobs = append(jobs, job{entry, shape, 0})
 				}
